@@ -88,6 +88,10 @@ impl<'c, Param, Yield, Return> Coroutine<'c, Param, Yield, Return> {
                     if let Some(co) = Self::current() {
                         let stack_ptr_in_bounds = co.stack_ptr_in_bounds(sp);
                         let regs = co.inner.trap_handler().setup_trap_handler(move || {
+                            // the frames of the body are abandoned, not unwound: nothing else
+                            // takes the dying coroutine's suspender off this thread's stack of
+                            // current suspenders
+                            Suspender::<Param, Yield>::clean_current();
                             Err(if stack_ptr_in_bounds {
                                 "invalid memory reference"
                             } else {
